@@ -117,4 +117,25 @@ def validFile (dt : List String) (s : Session) (f : Obj) : Bool :=
     headerOK s a && !kids.isEmpty &&
     kids.all (fun kv => kv.2.gtype == some "root" && validGroup dt kv.2)
 
+/-! ### `Custom.to_h5` (custom.py): the node group as `Node.to_h5` writes it, then every attribute that is a node, written
+    by its own class under the attribute's name and re-tagged `custom_<its group type>` -/
+
+/-- `attr_grp.attrs['emd_group_type'] = 'custom_' + attr_grp.attrs['emd_group_type']` -/
+def retagCustom (o : Obj) : Obj :=
+  match o with
+  | .group a k =>
+    (match alookup "emd_group_type" a with
+     | some (.str t) => .group (areplace "emd_group_type" (.str ("custom_" ++ t)) a) k
+     | _ => .group a k)
+  | .dataset a v => .dataset a v
+
+/-- the group written for a node-valued attribute: the attribute's own `to_h5` (the node alone, no tree below it) under the
+    attribute name, then the re-tag -/
+def customAttrGroup (i : NodeInfo) : Obj := retagCustom (nodeGroup i)
+
+/-- body of a Custom node: what `Node.to_h5` wrote (`own`: the metadata bundle, if any) followed by one group per node-valued
+    attribute, in attribute order -/
+def customBody (own : List (String × Obj)) (attrs : List NodeInfo) : List (String × Obj) :=
+  own ++ attrs.map (fun i => (i.name, customAttrGroup i))
+
 end EmdModel
